@@ -5,6 +5,7 @@ import (
 	"go/constant"
 	"go/token"
 	"go/types"
+	"sort"
 	"strings"
 	"unicode/utf8"
 
@@ -51,6 +52,11 @@ type Interp struct {
 	shared       map[*Value]bool
 	sharedMaps   map[*Map]bool
 	sharedWrites []string
+	// lockset tracking: accesses by library code to shared cells together with the
+	// locks held (a guarded write + an access under a disjoint lockset = candidate race)
+	gWrites map[*Value][]access
+	sReads  map[*Value][]access
+	phase   int // which of the sequentially executed "goroutines" of vnTogether is running
 
 	mapSeq int
 
@@ -104,6 +110,7 @@ func (it *Interp) resetPath() {
 	it.shared = nil
 	it.sharedMaps = nil
 	it.sharedWrites = nil
+	it.gWrites, it.sReads, it.phase = nil, nil, 0
 	it.mapSeq = 0
 	it.onDivSet = false
 	it.pkgInit = map[*ssa.Package]bool{}
@@ -734,34 +741,182 @@ func (it *Interp) store(p *Value, v Value) {
 	storeRaw(p, v)
 }
 
-func (it *Interp) guarded() bool {
+type access struct {
+	locks []*Value
+	site  string
+}
+
+// lockset: the locks the running (interpreted) goroutine holds. A sync.Once the
+// goroutine is inside of, or has already passed, counts as a lock (everything
+// done inside Do happens-before every return of Do).
+func (it *Interp) lockset() []*Value {
+	var ls []*Value
+	me := it.threadID()
 	if it.par != nil {
-		for _, o := range it.par.owner {
+		for m, o := range it.par.owner {
 			if o == it.par.cur {
-				return true
+				ls = append(ls, m)
 			}
 		}
-		for _, o := range it.rm.onceRunning {
-			if o == it.par.cur+1 {
-				return true
+	} else {
+		ls = append(ls, it.rm.held...)
+	}
+	for p, o := range it.rm.onceRunning {
+		if o == me {
+			ls = append(ls, p)
+		}
+	}
+	for k := range it.rm.oncePassed {
+		if k.thread == me {
+			ls = append(ls, k.once)
+		}
+	}
+	return ls
+}
+
+func (it *Interp) threadID() int {
+	if it.par != nil {
+		return it.par.cur + 1
+	}
+	return 1 + 10*it.phase
+}
+
+func (it *Interp) guarded() bool {
+	if it.par == nil && len(it.rm.onceRunning) == 0 && len(it.rm.oncePassed) == 0 {
+		return len(it.rm.held) > 0
+	}
+	return len(it.lockset()) > 0
+}
+
+func disjoint(a, b []*Value) bool {
+	for _, x := range a {
+		for _, y := range b {
+			if x == y {
+				return false
 			}
 		}
+	}
+	return true
+}
+
+func sameLocks(a, b []*Value) bool {
+	if len(a) != len(b) {
 		return false
 	}
-	return it.rm.locksHeld > 0
+	for _, x := range a {
+		f := false
+		for _, y := range b {
+			f = f || x == y
+		}
+		if !f {
+			return false
+		}
+	}
+	return true
+}
+
+// subCells calls f for p and for every cell nested in the aggregate stored at p.
+func subCells(p *Value, f func(*Value)) {
+	f(p)
+	switch v := (*p).(type) {
+	case Struct:
+		for i := range v {
+			subCells(&v[i], f)
+		}
+	case Array:
+		for i := range v {
+			subCells(&v[i], f)
+		}
+	}
 }
 
 func (it *Interp) noteWrite(p *Value) {
 	if it.cur != nil && it.cur.info.harness {
 		return // the harness's own bookkeeping is not the library's write
 	}
-	if it.shared[p] && !it.guarded() {
-		w := "?"
-		if it.cur != nil {
-			w = it.where(it.cur)
-		}
-		it.sharedWrites = append(it.sharedWrites, w)
+	if !it.shared[p] {
+		return
 	}
+	w := "?"
+	if it.cur != nil {
+		w = it.where(it.cur)
+	}
+	if !it.guarded() {
+		it.sharedWrites = append(it.sharedWrites, w)
+		return
+	}
+	if it.gWrites == nil {
+		it.gWrites = map[*Value][]access{}
+	}
+	ls := it.lockset()
+	subCells(p, func(c *Value) {
+		for _, a := range it.gWrites[c] {
+			if sameLocks(a.locks, ls) {
+				return
+			}
+		}
+		it.gWrites[c] = append(it.gWrites[c], access{ls, w})
+	})
+}
+
+// noteRead records a load by library code from a shared cell with the lockset held.
+func (it *Interp) noteRead(p *Value) {
+	if it.cur != nil && it.cur.info.harness {
+		return
+	}
+	if !it.shared[p] {
+		return
+	}
+	if it.sReads == nil {
+		it.sReads = map[*Value][]access{}
+	}
+	ls := it.lockset()
+	site := ""
+	subCells(p, func(c *Value) {
+		for _, a := range it.sReads[c] {
+			if sameLocks(a.locks, ls) {
+				return
+			}
+		}
+		if site == "" {
+			site = "?"
+			if it.cur != nil {
+				site = it.where(it.cur)
+			}
+		}
+		it.sReads[c] = append(it.sReads[c], access{ls, site})
+	})
+}
+
+// lockConflicts: shared cells written under a lock and accessed (read or written)
+// under a lockset that shares no lock with it.
+func (it *Interp) lockConflicts() []string {
+	var out []string
+	seen := map[string]bool{}
+	for c, ws := range it.gWrites {
+		for _, w := range ws {
+			for _, r := range it.sReads[c] {
+				if disjoint(w.locks, r.locks) {
+					k := "written under a lock at " + w.site + " but read without that lock at " + r.site
+					if !seen[k] {
+						seen[k] = true
+						out = append(out, k)
+					}
+				}
+			}
+			for _, w2 := range ws {
+				if disjoint(w.locks, w2.locks) {
+					k := "written under unrelated locks at " + w.site + " and " + w2.site
+					if !seen[k] {
+						seen[k] = true
+						out = append(out, k)
+					}
+				}
+			}
+		}
+	}
+	sort.Strings(out)
+	return out
 }
 
 func (it *Interp) noteMapWrite(m *Map) {
@@ -793,6 +948,9 @@ func (it *Interp) exec(fr *frame, ins ssa.Instruction) {
 			}
 			if it.par != nil && it.hotPtrs[p] {
 				it.parYield()
+			}
+			if it.shared != nil {
+				it.noteRead(p)
 			}
 			it.set(fr, ins, copyVal(*p))
 		case token.NOT:
